@@ -11,16 +11,24 @@ proof that no host exception exists.
   C13.kind     TypeError / ValueError: the payload of a program-controlled value of unrefined kind reaches a host
                operation that needs a specific type (int(), float(), str +, str.find, index, iteration, hashing)
   C13.concat   TypeError: str + non-str
+  C13.table    IndexError: the date helpers index their month table inside its bounds at every call site (interval
+               analysis); their ValueError (result outside years 1..9999, nan / inf) is converted at every call
+  C13.key      KeyError / ValueError: list.remove(x), set.remove(x), del dict[k], dict.pop(k) are dominated by a
+               membership test on the same container or convert the error; for wrapper methods every caller is
+               looked at instead
+  C13.ckl.step library code: a loop `while length(V) > P` that cuts P elements off V per round rejects P <= 0 first
+               (non-termination on finite data)
   C13.conv     ValueError / OverflowError: int()/float()/chr()/shift count on program-derived input outside a
                handler that converts the host error; C13.math: math domain / overflow errors
   C13.zero     ZeroDivisionError: / // % whose divisor is neither a non-zero constant nor dominated by a zero test
   C13.index    IndexError / KeyError: constant index into a sequence whose length no dominating test bounds
   C13.arity    TypeError: a call resolved to repository functions passes a number of positional arguments none of
                the targets accept
+  C13.ckl.rec  library code: a function that calls itself on the text after a match of X rejects an empty X first
   C13.ckl.fill library loops that fill a set up to a requested size are guarded by a distinct-count test
                (the one termination condition of library code that is decided)
 Not decided: MemoryError / RecursionError, float overflow to inf, termination of library code written in the
-language (e.g. replace(s, '', x) recurses forever).
+language beyond the three patterns above.
 """
 import ast
 
@@ -80,8 +88,10 @@ def run(ctx):
     arity(ctx, model, funcs)
     ckl_set_fill(ctx, model)
     ckl_shrink_loops(ctx, model)
+    ckl_recursion_step(ctx, model)
     host_data(ctx, model)
     absent_key(ctx, model, engine, funcs)
+    date_helpers(ctx, model, funcs)
     for c in model.subclasses("Value"):
         for m in c.methods.values():
             if m.name.startswith("as") and m.name[2:3].isupper():
@@ -364,6 +374,154 @@ def ckl_shrink_loops(ctx, model):
                              expr=f"{f.qual}: while length({v}) > {p}", file=f"src/ckl/modules/{fn}", line=body[i].line)
     if n < 1:
         ctx.broken("C13.ckl.step", "no shrinking loop found in the library (chunks)")
+
+
+def ckl_recursion_step(ctx, model):
+    """Library code: a function that calls itself on `substr(s, pos + length(X))` (the rest of the text after a match
+    of X) makes progress only if X is not empty; for a parameter X an `X == ''` (or length(X) == 0 / is_empty(X))
+    test that leaves the function must come first.  Otherwise the recursion ends in the host's RecursionError."""
+    from .. import cklsrc
+    n = 0
+    for fn, (src, _) in sorted(model.ckl_modules.items()):
+        try:
+            toks = cklsrc.tokenize(src)
+            funcs = cklsrc.functions(toks)
+        except cklsrc.CklTokenError as e:
+            ctx.broken(f"modules/{fn}", str(e))
+        for f in funcs:
+            body = cklsrc.own_body(f)
+            calls = [i for i in range(len(body) - 1) if body[i].is_id(f.name) and body[i + 1].is_p("(")
+                     and (i == 0 or not body[i - 1].is_p("->"))]
+            for i in calls[:1]:
+                # the text handed to the recursive call is cut with substr(.., pos + length(X)) somewhere in the body
+                # (inline in the call or through a local)
+                needs = set()
+                for k in range(len(body) - 5):
+                    if body[k].is_id("substr") and body[k + 1].is_p("("):
+                        e2 = cklsrc._skip_group(body, k + 1)
+                        inner = body[k + 2:e2]
+                        for q in range(len(inner) - 3):
+                            if inner[q].is_p("+") and inner[q + 1].is_id("length") and inner[q + 2].is_p("(") \
+                                    and inner[q + 3].kind == "id" and inner[q + 3].text in f.params:
+                                needs.add(inner[q + 3].text)
+                if not needs:
+                    continue
+                pre = body[:i]
+                for x in sorted(needs):
+                    n += 1
+                    ok = False
+                    for k in range(len(pre) - 3):
+                        empty_test = (pre[k].kind == "id" and pre[k].text == x and pre[k + 1].is_p("==")
+                                      and pre[k + 2].kind == "str" and pre[k + 2].text == "") or \
+                                     (pre[k].is_id("is_empty") and pre[k + 1].is_p("(") and pre[k + 2].kind == "id"
+                                      and pre[k + 2].text == x) or \
+                                     (pre[k].is_id("length") and pre[k + 1].is_p("(") and pre[k + 2].kind == "id"
+                                      and pre[k + 2].text == x and k + 5 < len(pre) and pre[k + 4].is_p("==")
+                                      and pre[k + 5].text == "0")
+                        if empty_test and any(t.is_id("return") or t.is_id("error") for t in pre[k + 3:k + 10]):
+                            ok = True
+                    ctx.ob("C13.ckl.rec", f"modules/{fn}: {f.qual}: recursion on substr(.., pos + length({x}))", ok)
+                    if not ok:
+                        ctx.fail("C13.ckl.rec", f"modules/{fn}:{f.qual}", None,
+                                 f"{f.qual} calls itself on the text after a match of `{x}` (substr(.., pos + length({x}))) "
+                                 f"without rejecting an empty `{x}` first: the text never gets shorter and the recursion "
+                                 f"ends in the host's RecursionError", expr=f"{f.qual}: recursion step length({x})",
+                                 file=f"src/ckl/modules/{fn}", line=body[i].line)
+    if n < 1:
+        ctx.broken("C13.ckl.rec", "no self-recursive text function found in the library (replace)")
+
+
+def date_helpers(ctx, model, funcs):
+    """The date arithmetic helpers (date.py) are position-less host code: (a) a module-level table indexed by a variable
+    (`DAYS_PER_MONTH[month]`) is indexed inside its bounds at every call site (interval analysis, with
+    1 <= datetime.month <= 12 as the only fact about host dates); (b) helpers that can raise ValueError (explicitly, or
+    through datetime.replace with computed fields) are called only under a handler that turns it into a language
+    error."""
+    from ..intervals import Bounds, le, show
+    from .common import resolve_static_call
+    dm = model.modules.get("date")
+    if dm is None:
+        ctx.ob("C13.table", "no date module", True)
+        return
+    tables = {}
+    for name, v in dm.globals_assigned.items():
+        if isinstance(v, (ast.List, ast.Tuple)) and v.elts and all(isinstance(x, ast.Constant) for x in v.elts):
+            tables[name] = len(v.elts)
+    assume = {"date.month": (("c", 1), ("c", 12))}
+    n = 0
+    # (a) direct and through-parameter indexing
+    indexed_param = {}       # helper -> (param index, table)
+    for f in dm.funcs.values():
+        for sub in ast.walk(f.node):
+            if isinstance(sub, ast.Subscript) and isinstance(sub.value, ast.Name) and sub.value.id in tables \
+                    and isinstance(sub.slice, ast.Name):
+                if sub.slice.id in f.params and not any(
+                        isinstance(x, ast.Name) and x.id == sub.slice.id and isinstance(x.ctx, ast.Store)
+                        for x in ast.walk(f.node)):
+                    indexed_param[f.name] = (f.params.index(sub.slice.id), sub.value.id)
+                else:
+                    b = Bounds(f.node, assume=assume, tracked={"date.month"})
+                    for node in b.g.nodes:
+                        a = node.ast if node.kind != "for" else None
+                        if a is not None and any(x is sub for x in ast.walk(a)):
+                            lo, hi = b.ev(sub.slice, b.at(node))
+                            ok = lo is not None and le(("c", 0), lo) is True and hi is not None and \
+                                le(hi, ("c", tables[sub.value.id] - 1)) is True
+                            n += 1
+                            ctx.check("C13.table", f, sub, ok,
+                                      f"`{norm(sub)}`: the index is not proven inside the {tables[sub.value.id]}-entry "
+                                      f"table (derived range [{show(lo)}, {show(hi)}]): IndexError")
+    for f in list(dm.funcs.values()):
+        calls = [c for c in ast.walk(f.node) if isinstance(c, ast.Call) and isinstance(c.func, ast.Name)
+                 and c.func.id in indexed_param]
+        if not calls:
+            continue
+        b = Bounds(f.node, assume=assume, tracked={"date.month"})
+        from ..facts import short_circuit_facts
+        for c in calls:
+            pi, tbl = indexed_param[c.func.id]
+            if pi >= len(c.args):
+                continue
+            for node in b.g.nodes:
+                a = node.ast if node.kind != "for" else None
+                if a is None or not any(x is c for x in ast.walk(a)):
+                    continue
+                st = b.at(node)
+                # operands evaluated before the call in the same condition have already held
+                for bo in ast.walk(a):
+                    if isinstance(bo, ast.BoolOp) and isinstance(bo.op, ast.And):
+                        for j, v in enumerate(bo.values):
+                            if any(x is c for x in ast.walk(v)):
+                                for prev in bo.values[:j]:
+                                    st = b.refine(prev, True, st)
+                lo, hi = b.ev(c.args[pi], st)
+                ok = lo is not None and le(("c", 0), lo) is True and hi is not None and \
+                    le(hi, ("c", tables[tbl] - 1)) is True
+                n += 1
+                ctx.check("C13.table", f, c, ok,
+                          f"`{norm(c)}` indexes {tbl} with `{norm(c.args[pi])}`, not proven inside its "
+                          f"{tables[tbl]} entries (derived range [{show(lo)}, {show(hi)}]): IndexError when the "
+                          f"running month / index walks off the table",
+                          site=f"{f.qual}: {norm(c)} index inside {tbl}")
+    # (b) ValueError-raising date helpers are converted at every call site
+    raising = set()
+    for f in dm.funcs.values():
+        if any(isinstance(r, ast.Raise) and r.exc is not None and "ValueError" in norm(r.exc) for r in ast.walk(f.node)) \
+                or any(isinstance(c, ast.Call) and isinstance(c.func, ast.Attribute) and c.func.attr == "replace"
+                       and any(k.arg in ("year", "month", "day") for k in c.keywords) for c in ast.walk(f.node)):
+            raising.add(f.name)
+    for g in funcs:
+        for c in ast.walk(g.node):
+            if isinstance(c, ast.Call) and isinstance(c.func, ast.Name) and c.func.id in raising \
+                    and g.module.imports.get(c.func.id, "").startswith("ckl.date"):
+                n += 1
+                ok = _in_try_converting(g, c, ("ValueError", "Exception"))
+                ctx.check("C13.conv", g, c, ok,
+                          f"`{norm(c)[:60]}`: {c.func.id} raises ValueError for results outside the years 1..9999 "
+                          f"(and for nan / inf); the call is not under a handler that turns it into a language error",
+                          site=f"{g.qual}: {c.func.id}(..) under a converting handler")
+    if n < 4:
+        ctx.broken("date.py", f"only {n} table-index / conversion sites found")
 
 
 def absent_key(ctx, model, engine, funcs):
